@@ -197,6 +197,7 @@ def run_check(modname, tier, seed, replay=None):
             'hashseed': os.environ.get('PYTHONHASHSEED'),
             'known_findings_hit': {k: len(v) for k, v in knownhits.items()},
             'slowest_case_s': round(max([r['_wall'] for r in done] or [0]), 2),
+            'slowest_case': (lambda r: case_key(cases[r['_idx']]) if r else None)(max(done, key=lambda r: r['_wall']) if done else None),
         },
         'assumptions': list(getattr(mod, 'ASSUMPTIONS', [])),
         'wall_s': round(time.time() - t0, 2),
@@ -216,6 +217,7 @@ def merge_evidence(evs):
             c[k] += d[k]
         c['distinct_outcomes'] = max(c['distinct_outcomes'], d['distinct_outcomes'])
         c['exhaustive'] = c['exhaustive'] and d['exhaustive']
+        if d['slowest_case_s'] > c['slowest_case_s']: c['slowest_case'] = d.get('slowest_case')
         c['slowest_case_s'] = max(c['slowest_case_s'], d['slowest_case_s'])
         for k, v in d['known_findings_hit'].items():
             c['known_findings_hit'][k] = c['known_findings_hit'].get(k, 0) + v
